@@ -492,9 +492,11 @@ def union_discipline(cx, qual, dict_param):
     uses = []
     # local aliases of a row result:  x = samples[row]
     alias = {}
+    alias_sts = []
     for st in fn.stmts(ast.Assign):
         if isinstance(st.targets[0], ast.Name) and isinstance(st.value, ast.Subscript) and dotted(st.value.value) == dict_param:
             alias[st.targets[0].id] = st
+            alias_sts.append(st)
     for x in fn.walk():
         is_res = isinstance(x, ast.Subscript) and dotted(x.value) == dict_param and isinstance(x.ctx, ast.Load)
         is_alias = isinstance(x, ast.Name) and x.id in alias and isinstance(x.ctx, ast.Load)
@@ -502,7 +504,7 @@ def union_discipline(cx, qual, dict_param):
             par = fn.parent.get(id(x))
             if isinstance(par, ast.Call) and dotted(par.func) in ('isinstance', 'str') and par.args[0] is x:
                 continue
-            if is_res and isinstance(par, ast.Assign) and par in alias.values():
+            if is_res and isinstance(par, ast.Assign) and any(par is a_ for a_ in alias_sts):
                 continue          # the aliasing assignment itself uses nothing of the value
             uses.append(x)
     for u in uses:
